@@ -31,6 +31,7 @@ func RunInit(args []string, opts GlobalOptions) error {
 	if len(args) > 1 {
 		return errors.New("usage: ergo init [dir]")
 	}
+	verifPoint("start")
 	target := filepath.Join(dir, dataDirName)
 	if err := os.MkdirAll(target, 0755); err != nil {
 		return err
